@@ -79,7 +79,13 @@ def check_sheet_names(ctx: CheckContext, p: Program, r: Resolver, rule: str = "B
                 if any(isinstance(n, ast.Call) and isinstance(n.func, ast.Attribute) and n.func.attr == "sub" for n in body_nodes(t)):
                     sanit = t
     if sanit is None:
-        ctx.ob(rule + "-CHARS", f"{alloc.qualname}:sanitiser", alloc.loc, False, "the allocator does not pass the name through a re.sub-based sanitiser")
+        name_params = [a for a in alloc.pos_params if a != used_param]
+        through_call = any(isinstance(c, ast.Call) and any(isinstance(a, ast.Name) and a.id in name_params for a in c.args) for c in body_nodes(alloc))
+        if through_call:
+            # the name does go through some function (str.translate, a helper ...) this rule does not interpret as a sanitiser: undecided
+            ctx.info.setdefault("bound_undecided", []).append(f"{alloc.qualname}: the name is cleaned by a call that is not a recognised re.sub sanitiser")
+        else:
+            ctx.ob(rule + "-CHARS", f"{alloc.qualname}:sanitiser", alloc.loc, False, "the allocator uses the raw name: it is never passed through a sanitiser")
     else:
         cls = None
 
@@ -156,6 +162,11 @@ def check_sheet_names(ctx: CheckContext, p: Program, r: Resolver, rule: str = "B
         raise AnalysisError(f"{alloc.loc}: allocator has no analysable return")
     for ret, ub in rets:
         ok = ub <= MAXLEN
+        if not ok and ub >= INF and getattr(sl, "unknown", None):
+            # no bound could be derived because a string comes out of a call the interpreter does not model (a generator pipeline, str.translate ...):
+            # that is "not decided", not "unbounded"
+            ctx.info.setdefault("bound_undecided", []).append(f"{alloc.qualname}: {norm_stmt(ret)}: length depends on {sorted(set(sl.unknown))[:3]}")
+            continue
         ctx.ob(rule + "-LEN", f"{alloc.qualname}:{norm_stmt(ret)}", f"{alloc.module.relpath}:{ret.lineno}", ok,
                "" if ok else f"returned sheet name can be {ub if ub < INF else 'unboundedly'} characters long (> {MAXLEN})", bound=ub)
     # ---- uniqueness discipline: on every path to `return v`, v was tested absent from `used` (enclosing `if v not in used`
@@ -170,8 +181,11 @@ def check_sheet_names(ctx: CheckContext, p: Program, r: Resolver, rule: str = "B
             return dict(s)
 
         def join(self, a, b):
-            return {k: (a.get(k, (False, False))[0] and b.get(k, (False, False))[0], a.get(k, (False, False))[1] and b.get(k, (False, False))[1])
-                    for k in set(a) | set(b)}
+            out = {}
+            for k in set(a) | set(b):
+                x, y = a.get(k, (False, False)), b.get(k, (False, False))
+                out[k] = None if (x is None or y is None) else (x[0] and y[0], x[1] and y[1])
+            return out
 
         def _absent_test(self, test):
             if isinstance(test, ast.Compare) and len(test.ops) == 1 and isinstance(test.left, ast.Name) and isinstance(test.comparators[0], ast.Name) \
@@ -193,26 +207,33 @@ def check_sheet_names(ctx: CheckContext, p: Program, r: Resolver, rule: str = "B
         def transfer(self, st, s):
             s = dict(s)
             if isinstance(st, ast.Assign):
+                opaque = isinstance(st.value, ast.Call) and isinstance(st.value.func, ast.Name) and st.value.func.id in ("next", "min", "max", "first")
                 for tg in st.targets:
                     for n in ast.walk(tg):
                         if isinstance(n, ast.Name):
-                            s[n.id] = (False, False)
+                            s[n.id] = None if opaque else (False, False)       # None: chosen by a search this rule does not interpret
             elif isinstance(st, ast.AugAssign) and isinstance(st.target, ast.Name):
                 s[st.target.id] = (False, False)
             elif isinstance(st, ast.Expr) and isinstance(st.value, ast.Call) and isinstance(st.value.func, ast.Attribute) and st.value.func.attr == "add" \
                     and isinstance(st.value.func.value, ast.Name) and st.value.func.value.id == used_param and len(st.value.args) == 1 \
                     and isinstance(st.value.args[0], ast.Name):
                 v = st.value.args[0].id
-                if s.get(v, (False, False))[0]:
+                if (s.get(v) or (False, False))[0]:
                     s[v] = (True, True)
             elif isinstance(st, ast.Return):
                 v = st.value.id if isinstance(st.value, ast.Name) else None
-                self.rets.append((st, bool(v) and s.get(v, (False, False)) == (True, True)))
+                if v is None or (v in s and s[v] is None):
+                    self.rets.append((st, None))
+                else:
+                    self.rets.append((st, s.get(v, (False, False)) == (True, True)))
             return s
 
     uf = _Uniq()
     uf.run(alloc.node, {})
     for ret, ok in uf.rets:
+        if ok is None:
+            ctx.info.setdefault("bound_undecided", []).append(f"{alloc.qualname}: {norm_stmt(ret)}: the returned name is chosen by an expression this rule does not interpret")
+            continue
         ctx.ob(rule + "-UNIQ", f"{alloc.qualname}:{norm_stmt(ret)}", f"{alloc.module.relpath}:{ret.lineno}", ok,
                "" if ok else "a sheet name is returned without having been tested absent from `used` and recorded in `used` on every path")
     # ---- call sites: every sheet_name= in the module; the used set is created once per workbook
